@@ -267,3 +267,27 @@ Proof.
     + intros n. destruct (decide (n = i)) as [->|Hne]; [rewrite lookup_insert; left|].
       rewrite lookup_insert_ne by congruence. right. apply IC.
 Qed.
+
+(* non-trivial instances of the reachability hypotheses *)
+Example mv_sys_example :
+  (* replica 1 writes 7, replica 2 concurrently writes 8, replica 1 receives replica 2's state: both values *)
+  ∃ cur H s, mv_sys cur H ∧ s ∈ H ∧ length (mv_values s) = 2%nat.
+Proof.
+  eexists _, _, _. split; [|split].
+  - eapply (mvs_recv _ _ 1 _).
+    + eapply (mvs_set _ _ 2 8). eapply (mvs_set _ _ 1 7). apply mvs_init.
+    + left.
+  - left.
+  - vm_compute. reflexivity.
+Qed.
+Example l_sys_example :
+  ∃ cur H, l_sys cur H ∧ l_set l_new 3 10%Z 1 ∈ H ∧ l_set l_new 4 10%Z 2 ∈ H.
+Proof.
+  eexists. eexists. split.
+  - eapply (ls_set _ _ 2 4 10%Z).
+    + eapply (ls_set _ _ 1 3 10%Z); [apply ls_init|].
+      intros s Hs Hn. apply elem_of_list_singleton in Hs as ->. discriminate.
+    + intros s Hs Hn. apply elem_of_cons in Hs as [->|Hs]; [discriminate|].
+      apply elem_of_list_singleton in Hs as ->. discriminate.
+  - split; [right; left|left].
+Qed.
